@@ -227,7 +227,7 @@ func (p *proj) resolveUsers() {
 }
 
 // reach returns the nodes AttributeExpr.Validate visits from the roots (object
-// fields and array elements, never map keys / elements).
+// fields, array elements, map keys and elements).
 func (p *proj) reach(roots []int) map[int]bool {
 	seen := map[int]bool{}
 	var walk func(n int)
@@ -243,6 +243,9 @@ func (p *proj) reach(roots []int) map[int]bool {
 				walk(f[1])
 			}
 		case "arr":
+			walk(nd.elem)
+		case "map":
+			walk(nd.key)
 			walk(nd.elem)
 		}
 	}
@@ -612,6 +615,8 @@ var errPats = []errPat{
 	{regexp.MustCompile(`cookie "([^"]+)" has no equivalent attribute in( all views of)? result type`), "ERespCookie"},
 	{regexp.MustCompile(`body "([^"]+)" has no equivalent attribute in`), "ERespBody"},
 	{regexp.MustCompile(`response defines (headers|cookies) but result is empty`), "ERespNoResult"},
+	{regexp.MustCompile(`Tag attribute "([^"]+)" not found in result`), "ETag"},
+	{regexp.MustCompile(`(Some responses define a Tag) but the method Result type is not an object`), "ETagNotObject"},
 	{regexp.MustCompile(`Error "([^"]+)" does not match an error defined in the`), "EErrResponse"},
 	{regexp.MustCompile(`header "([^"]+)" has no equivalent attribute in error type`), "EErrHeader"},
 	{regexp.MustCompile(`security scheme "([^"]+)" not found`), "EScheme"},
@@ -633,7 +638,7 @@ var errPats = []errPat{
 	{regexp.MustCompile(`defines a (OAuth2 access token) attribute, but no`), "EStrayAccessToken"},
 }
 
-var nameless = map[string]bool{"ENoPayload": true, "ERespNoResult": true, "EBadRange": true,
+var nameless = map[string]bool{"ETagNotObject": true, "ENoPayload": true, "ERespNoResult": true, "EBadRange": true,
 	"ENoUsername": true, "ENoPassword": true, "ENoAPIKey": true, "ENoToken": true, "ENoAccessToken": true,
 	"EStrayUsername": true, "EStrayPassword": true, "EStrayAPIKey": true, "EStrayToken": true, "EStrayAccessToken": true}
 
